@@ -105,7 +105,7 @@ pub fn check(h: &Hist) -> (Vec<Violation>, Stats) {
                     if it.idx != usize::MAX && it.idx as u64 != it.id {
                         v(&mut out, "IDX", P_IDX, format!("thread {} {}: reported index {} but the element is source position {}", r.thread, OP_NAMES[r.op as usize], it.idx, it.id));
                     }
-                    if chunk && k > 0 && it.id != items[0].id + k as u64 {
+                    if chunk && k > 0 && it.id.wrapping_sub(items[0].id) != it.idx.wrapping_sub(items[0].idx) as u64 {
                         v(&mut out, "CHUNK-CONSEC", P_CHUNK, format!("thread {} chunk at begin {}: item #{} is position {} (first item is {})", r.thread, begin, k, it.id, items[0].id));
                     }
                 }
@@ -116,10 +116,11 @@ pub fn check(h: &Hist) -> (Vec<Violation>, Stats) {
                     if *announced > *requested {
                         v(&mut out, "CHUNK-TOO-LONG", P_CHUNK, format!("thread {} chunk of {} items for a request of {}", r.thread, announced, requested));
                     }
-                    if !*len_trace_ok || *extra_after_end || items.len() > *announced {
+                    if !*len_trace_ok || *extra_after_end || items.len() > *announced || items.iter().any(|i| i.idx.wrapping_sub(*begin) >= *announced) {
                         v(&mut out, "CHUNK-LEN", P_CHUNK, format!("thread {} chunk at begin {}: announced len {} but len()/items disagree during consumption (yielded {}, extra_after_end {})", r.thread, begin, announced, items.len(), extra_after_end));
                     }
-                    let start = if let Some(f) = items.first() { f.id } else { *begin as u64 };
+                    // position of the chunk's first element, from the first item that was seen and its offset
+                    let start = if let Some(f) = items.first() { f.id.wrapping_sub(f.idx.wrapping_sub(*begin) as u64) } else { *begin as u64 };
                     if *announced < *requested && *announced > 0 && start + (*announced as u64) != len && !h.injected && !any_skip_before(h, r) {
                         v(&mut out, "CHUNK-SHORT", P_CHUNK, format!("thread {} chunk [{}..{}) is shorter than the requested {} but does not end at the last position {}", r.thread, start, start + *announced as u64, requested, len));
                     }
